@@ -28,7 +28,7 @@ def modelTrusted (ts : TrustSetting) (self p : Nat) : Bool :=
 def modelObs (i : RpcInput) (ovs : List (String × Option Int)) : Obs :=
   -- an unregistered name never reaches authorization: gorpc answers "no such method"
   if !i.registered then .passed
-  else if passes Gen.closure (applyOverrides Gen.policy ovs) (shapeOf i.ts.mode) i.ts.raw i.ts.ops i.self i.caller i.ep
+  else if passes (Gen.serverGuarded i.tracing) Gen.closure (applyOverrides Gen.policy ovs) (shapeOf i.ts.mode) i.ts.raw i.ts.ops i.self i.caller i.ep
   then .passed else .refused
 
 /-- the observer's pinset after the messages -/
